@@ -3,6 +3,7 @@ import itertools
 from math import factorial
 
 from ..sengine import SHarness, register, shard_fn
+from .. import bigpoints
 from ..core import Run, run_shards
 from .. import gen
 from ..gen import Vars, mk_bip, mk_graph, formula_class
@@ -452,6 +453,7 @@ def run(tier):
                        'OPB rows are read as [(coeff,lit)..., op, degree] as documented in BaseOPB']
     for h in HARNESSES:
         items = [(h.name, p) for p in h.points(tier)]
+        items += [(h.name, p) for p in bigpoints.big_points(h.name, tier)]
         items += gen.with_networkx_inputs(items)
         part = run_shards(shard_fn, items)
         if part.counts.get('selftest_mutants', 0) and not part.counts.get('selftest_distinguished', 0):
